@@ -6,6 +6,7 @@ import (
 	"bytes"
 	"encoding/json"
 	"fmt"
+	"go/ast"
 	"hash/crc32"
 	"io"
 	"math/rand"
@@ -61,6 +62,23 @@ func facts(repo string, w io.Writer) error {
 		}
 		fmt.Fprintln(w, common.EventsCoq(f.name, evs))
 	}
+	// what readNextChunk makes of the remainder and the decoded chunk payload
+	rn, err := s.FindFunc("streamedDiffVarintPostings.readNextChunk")
+	if err != nil {
+		return err
+	}
+	var bAssigns []string
+	ast.Inspect(rn.Body, func(n ast.Node) bool {
+		if as, ok := n.(*ast.AssignStmt); ok && len(as.Lhs) == 1 && len(as.Rhs) == 1 && s.ExprString(as.Lhs[0]) == "it.db.B" {
+			bAssigns = append(bAssigns, s.ExprString(as.Rhs[0]))
+		}
+		return true
+	})
+	qs := make([]string, len(bAssigns))
+	for i, x := range bAssigns {
+		qs[i] = common.CoqString(x)
+	}
+	fmt.Fprintf(w, "Definition readNextChunkDbBAssigns : list string := [%s]%%string.\n", strings.Join(qs, "; "))
 	e, err := s.RHS("diffVarintSnappyStreamedEncode", "uvarintSize")
 	if err != nil {
 		return err
